@@ -789,4 +789,66 @@ theorem wrap_of_selection_inside (S : Schema) (doc doc' : Node) (f t : Nat) (hft
   exact ⟨w1, w2, Nat.le_refl _, w3, Nat.le_refl _⟩
 
 
+/-- **split at a position inside an isolating node**: `can_split(doc, pos, depth)` approved, the step is
+    the one `tr.split(pos, depth)` builds.  Then all `depth` nodes that get split lie strictly below
+    the isolating ancestor (`depth + k ≤ depth(pos)`), the step is an insertion at `pos` — between the
+    node's open and close token —, and if it applies: every token up to and including the node's open
+    token and from its close token on is unchanged, the content grows by `2·depth` tokens, and **the
+    node is not split**: inside its new content window `[start(k), end(k) + 2·depth]` the nesting level
+    never drops below `k`, so none of the inserted close tokens closes the isolating node — its open
+    token is still matched by its old close token. -/
+theorem split_of_position_inside (S : Schema) (doc doc' : Node) (pos depth : Nat) (r : RPos)
+    (hr : doc.resolve pos = some r)
+    (k : Nat) (hk1 : 1 ≤ k) (hk : k ≤ r.depth) (hiso : S.isolating (r.node k) = true)
+    (hcs : canSplit S doc pos depth = some true)
+    (st : Step) (hst : splitStep doc pos depth = .ok st)
+    (h : S.apply st doc = .ok doc') :
+    depth + k ≤ r.depth ∧
+    insideNode (r.start k - 1) (r.end_ k + 1) st = true ∧
+    (ftoks doc'.kids).take (r.start k) = (ftoks doc.kids).take (r.start k) ∧
+    (ftoks doc'.kids).drop (r.end_ k + fsize doc'.kids - fsize doc.kids) = (ftoks doc.kids).drop (r.end_ k) ∧
+    fsize doc'.kids = fsize doc.kids + 2 * depth ∧
+    ∀ j, r.start k ≤ j → j ≤ r.end_ k + 2 * depth → (k : Int) ≤ balance ((ftoks doc'.kids).take j) := by
+  have R := resolve_resolved hr
+  obtain ⟨_, hd2, _⟩ := canSplit_not_across_isolating S doc pos depth r hr hcs
+  obtain ⟨hkb, _⟩ := canSplit_stays_inside S doc pos depth r hr hcs k hk hiso
+  have hdk : depth + k ≤ r.depth := by omega
+  have hdoc : doc.isLeaf = false := by
+    have hd := R.depth_eq
+    cases doc with
+    | elem => rfl
+    | text s m => simp [Node.kids, depthAt] at hd; omega
+    | leaf ty a m => simp [Node.kids, depthAt] at hd; omega
+  obtain ⟨sl, rfl, hwf, hos, hoe, hsz⟩ := splitStep_shape depth st hdoc hst
+  have pin := R.pos_in k hk
+  obtain ⟨hs1, hb⟩ := ancestor_window_in_doc hr k hk1 hk
+  have hm : insideNode (r.start k - 1) (r.end_ k + 1) (.replace pos pos sl true) = true := by
+    simp only [insideNode, Bool.and_eq_true, decide_eq_true_eq]
+    omega
+  obtain ⟨o1, o2, _⟩ := inside_ancestor_preserves_outside S doc doc' pos r hr k hk1 hk _ hm
+    (fun f t gf gt sl' i c e => by simp at e) h
+  obtain ⟨etoks, _, _, _⟩ := apply_replace_toks S doc doc' pos pos sl true h
+  have hlen : sl.toks.length = 2 * depth := by
+    have := wf_opens_le hwf
+    simp only [Slice.size] at hsz
+    simp only [Slice.toks, List.length_take, List.length_drop, ftoks_length]
+    omega
+  have hsize : fsize doc'.kids = fsize doc.kids + 2 * depth := by
+    have hl := congrArg List.length etoks
+    simp only [List.length_append, List.length_take, List.length_drop, ftoks_length, hlen] at hl
+    have := R.le
+    omega
+  refine ⟨hdk, hm, o1, o2, hsize, ?_⟩
+  intro j h1 h2
+  rw [etoks]
+  have hbp := balance_take_pos hr
+  refine splice_keeps_level (ftoks doc.kids) sl.toks (r.start k) (r.end_ k) pos pos k (Nat.le_refl _)
+    pin.1 pin.2 (by rw [ftoks_length]; omega) (fun j' a b => balance_in_ancestor hr k hk j' a b) ?_ ?_ j h1
+    (by rw [hlen]; omega)
+  · intro i
+    have := sliceToks_balance_ge sl hwf i
+    rw [hbp, hos] at *
+    omega
+  · rw [sliceToks_balance sl hwf, hos, hoe]; omega
+
 end PM.C18
